@@ -38,7 +38,9 @@ _REQ = ([f"pert:{p}" for p in PERTS] +
         ["entry:AggregateVerify:basic", "entry:AggregateVerify:aug", "entry:AggregateVerify:pop",
          "entry:FastAggregateVerify", "entry:Aggregate", "want:True", "want:False", "repeated_key", "repeated_msg", "aggregate_verify:all_messages_equal",
          "zero_sum", "honest_aggregate_is_identity", "aggregate:wrong_size", "aggregate:empty", "aggregate:regroup", "n>=4"])
-REQUIRED_LABELS = {"quick": _REQ + ["aggregate:n>=7"], "thorough": _REQ + ["n>=16", "aggregate:n>=7"]}
+_AGG = ["aggregate:n>=7", "aggregate:entry:zero_component:y_re=0", "aggregate:entry:zero_component:y_im=0",
+        "aggregate:entry:inverse_of_entry", "aggregate:entry:repeated_entry"]
+REQUIRED_LABELS = {"quick": _REQ + _AGG, "thorough": _REQ + ["n>=16"] + _AGG}
 
 KEY_POOL = [1, 2, 3, R - 1, R - 2, (R - 1) // 2, 0x263dbd792f5b1be47ed85f8938c0f29586af0d3ac7b977f21c278fe1462040e3,
             0x47b8192d77bf871b62e87859d653922725724a5c031afeabc60bcef5ff665138, (1 << 254) + 12345, 1 << 200,
@@ -205,6 +207,8 @@ def o_aggregate(ctx, case):
         ctx.check(got3 == want, "aggregate", "grouping_dependent", case, f"Aggregate of aggregates {groups} differs")
         ctx.label("aggregate:regroup")
     ctx.label("entry:Aggregate")
+    for c in case.get("classes", ()):
+        ctx.label("aggregate:entry:" + c)
     if len(sigs) >= 7:
         ctx.label("aggregate:n>=7")
     if len(sigs) >= 2:
@@ -360,14 +364,28 @@ def s_aggregate():
     def mk(t):
         suite, entries, kind, a = t
         sigs = []
+        classes = set()
         for e, sk_i, m_i in entries:
             if e == 0:
                 sigs.append(B.signature_bytes(sig_point(suite, KEY_POOL[sk_i % len(KEY_POOL)], MSG_POOL[m_i % 12])))
             elif e == 1:
                 sigs.append(B.signature_bytes(bc.torsion_point("G2", sk_i % 30)))
+            elif e == 3:
+                # an on-curve point whose y is purely real or purely imaginary, with either sign
+                zc, c = None, 1 + sk_i
+                while zc is None or zc[1] != ("y_re=0" if m_i % 2 else "y_im=0"):
+                    zc, c = bc.g2_zero_component(c), c + 1
+                sigs.append(B.signature_bytes(zc[0] if m_i % 4 < 2 else B.g2_mul(zc[0], -1)))
+                classes.add("zero_component:" + zc[1])
+            elif e == 4 and sigs:
+                sigs.append(B.signature_bytes(B.g2_mul(B.signature_point(sigs[sk_i % len(sigs)]), -1)))   # -(earlier entry)
+                classes.add("inverse_of_entry")
+            elif e == 5 and sigs:
+                sigs.append(sigs[sk_i % len(sigs)])                                                      # an entry twice
+                classes.add("repeated_entry")
             else:
                 sigs.append(B.signature_bytes(None))
-        case = {"suite": suite, "sigs": [hx(s) for s in sigs]}
+        case = {"suite": suite, "sigs": [hx(s) for s in sigs], "classes": sorted(classes)}
         n = len(sigs)
         if kind == 1 and n:
             case["perm"] = sorted(range(n), key=lambda q: (q * 5 + a) % (n + 2))
@@ -383,7 +401,7 @@ def s_aggregate():
         elif kind == 4:
             case["sigs"] = []
         return case
-    entry = st.tuples(st.sampled_from([0, 0, 0, 0, 1, 2]), st.integers(0, 40), st.integers(0, 40))
+    entry = st.tuples(st.sampled_from([0, 0, 0, 0, 0, 1, 2, 3, 3, 4, 5]), st.integers(0, 40), st.integers(0, 40))
     sizes = st.one_of(st.integers(1, 6), st.integers(1, 6), st.integers(7, 40))
     return st.tuples(sc.s_suite(), sizes.flatmap(lambda k: st.lists(entry, min_size=k, max_size=k)),
                      st.sampled_from([0, 1, 1, 2, 2, 3, 4]), st.integers(0, 10 ** 6)).map(mk)
@@ -417,6 +435,13 @@ def t_verify(ctx, shard, nshards, n, nmax):
 def t_aggregate(ctx, shard, n):
     ex = [{"suite": "basic", "sigs": []}, {"suite": "pop", "sigs": [hx(b"\x00" * 95)]},
           {"suite": "aug", "sigs": [hx(B.signature_bytes(B.G2)), hx(B.signature_bytes(None))], "perm": [1, 0]}]
+    for kind in ("y_re=0", "y_im=0"):
+        zc, c = None, 1
+        while zc is None or zc[1] != kind:
+            zc, c = bc.g2_zero_component(c), c + 1
+        for sg in (1, -1):
+            ex.append({"suite": sc.SUITES[len(ex) % 3], "classes": ["zero_component:" + kind], "perm": [1, 0],
+                       "sigs": [hx(B.signature_bytes(B.g2_mul(zc[0], sg))), hx(B.signature_bytes(B.G2))]})
     drive(ctx, f"aggregate{shard}", s_aggregate(), lambda c: o_aggregate(ctx, c), n, ex if shard == 0 else (),
           shrink=False)
 
